@@ -151,4 +151,21 @@ theorem mem_ancSet_iff (h : Hist) (roots : List Id) (x : Id) : x ∈ ancSet h ro
     rw [List.find?_eq_none]; intro r hr; simp; intro e; exact hi (by unfold ids; exact List.mem_map.mpr ⟨r, hr, e⟩)
   simp [this]
 
+theorem nodupB_iff : ∀ (l : List Id), nodupB l = true ↔ l.Nodup
+  | [] => by simp [nodupB]
+  | x :: r => by simp [nodupB, nodupB_iff r]
+
+/-- the oracle's descendant set decides `IsDesc` when every referenced revision exists -/
+theorem mem_descSet_iff (h : Hist) (hd : ∀ c ∈ ids h, ∀ p ∈ parents h c, p ∈ ids h) (roots : List Id) (x : Id) :
+    x ∈ descSet h roots ↔ IsDesc h roots x := by
+  unfold descSet Spec.Rev.closure IsDesc
+  apply mem_closureOf_iff
+  intro i hi
+  unfold children
+  apply List.filter_eq_nil_iff.mpr
+  intro c hc
+  simp only [decide_eq_true_eq]
+  exact fun hp => hi (hd c hc i hp)
+
+
 end Lemmas.Rev
